@@ -240,6 +240,18 @@ func (OracleC08) failure(x *Exec, op *Op, pre *Snap, msg string) {
 			}
 		}
 	}
+	// Listed finding F-C04a (consequence): an asset whose recorded total was driven negative by
+	// over-withdrawals is never reset (total != 0) yet can be deleted (the guard asks for > 0):
+	// validators keep shares of a denomination that is no asset any more and slashing them fails
+	if strings.Contains(msg, "not whitelisted") {
+		for _, dn := range sortedKeys(pre.Vals[op.V].ValShares) {
+			if _, ok := pre.Assets[dn]; !ok && x.PrecisionCollapsed(dn) {
+				x.KnownFinding("F-C04a")
+				x.Label("c08:shares-of-a-deleted-overdrawn-asset")
+				return
+			}
+		}
+	}
 	fs := op.Frac
 	if x.L.LastSlashFrac != nil {
 		fs = x.L.LastSlashFrac.FloatString(18)
